@@ -37,7 +37,6 @@ DataEq(od, rd) ==
 
 \* the observation o shows exactly the content R (an accepting verdict of Read)
 ContentEq(o, R, probes) ==
-  /\ o.ver = R.ver
   /\ o.types = R.types
   /\ o.ranges = R.ranges
   /\ o.items = R.items
@@ -64,9 +63,10 @@ PropertyOK(e, o, ce, doc) ==
   /\ e.wf => StoredBack(o, e.stored)
   /\ (doc /\ o.open = "ok") => ce
 
+\* (the name of the version variant -- V3 / V4 / V4Crude -- is a detail, not content)
 Detailed(o, R, ce) ==
   /\ o.open = R.open
-  /\ R.open = "ok" => ce
+  /\ R.open = "ok" => (ce /\ o.ver = R.ver)
 
 \* the spec's own law on the real-size file: what the writer stored is what Read defines
 SpecRoundTrip(e, R, doc) ==
